@@ -300,9 +300,21 @@ def absorbUpdates (m : Nat) : List Upd :=
 
 /-! ## `takagi`, real branch: order of the returned values and phases -/
 
-/-- `list_vals = [(|l_i|, i)]; list_vals.sort(reverse=True)` (descending in the value, then in the index) -/
+/-- `a` comes before `b` in `list_vals.sort(reverse=True)`: larger value first, then larger index -/
+def takagiBefore (a b : Int × Nat) : Bool := decide (b.1 < a.1 ∨ (b.1 = a.1 ∧ b.2 ≤ a.2))
+
+def takagiInsert (a : Int × Nat) : List (Int × Nat) → List (Int × Nat)
+  | [] => [a]
+  | b :: l => if takagiBefore a b then a :: b :: l else b :: takagiInsert a l
+
+def takagiSort : List (Int × Nat) → List (Int × Nat)
+  | [] => []
+  | a :: l => takagiInsert a (takagiSort l)
+
+/-- `list_vals = [(|l_i|, i)]; list_vals.sort(reverse=True)` (the pairs are distinct, so the result of the sort is
+determined by the order relation) -/
 def takagiOrder (l : List Int) : List (Int × Nat) :=
-  ((l.map fun x => (x.natAbs : Int)).zipIdx).mergeSort fun a b => decide (b.1 < a.1 ∨ (b.1 = a.1 ∧ b.2 ≤ a.2))
+  takagiSort ((l.map fun x => (x.natAbs : Int)).zipIdx)
 
 /-- square of the phase attached to eigenvalue `x` (`sqrt(1 if x > 0 else -1)`) -/
 def takagiPhaseSq (x : Int) : Int := if 0 < x then 1 else -1
